@@ -298,6 +298,8 @@ type c09World struct {
 	rpcInOp      atomic.Int64
 	noObserve    atomic.Bool
 	wbReset      atomic.Bool // the white-box walker must forget its previous walk (a concurrent episode happened)
+	enmJudge     atomic.Bool // a quiet request is running: re-sending an epoch the store already refuted is a loop
+	enmSeen      map[RegionVerID]string
 	pdc          *c09PD
 	cli          *c09Client
 	cache        *RegionCache
@@ -1010,6 +1012,18 @@ func (c *c09Client) SendRequest(ctx context.Context, addr string, req *tikvrpc.R
 	func() {
 		w.topoMu.RLock()
 		defer w.topoMu.RUnlock()
+		rctx := NewRegionVerID(req.Context.GetRegionId(), req.Context.GetRegionEpoch().GetConfVer(), req.Context.GetRegionEpoch().GetVersion())
+		if w.enmJudge.Load() {
+			w.mu.Lock()
+			told, again := w.enmSeen[rctx]
+			w.mu.Unlock()
+			if again {
+				w.r.Eval(1)
+				key, _ := c09ReqKey(req)
+				w.violate("send:refuted-epoch-resent", fmt.Sprintf("nothing changes any more, the store answered the request for key %s to r%d@%d.%d with EpochNotMatch{%s}, and the same stale epoch is sent again instead of installing the fresh descriptions and re-locating the key",
+					c09K(key), rctx.GetID(), rctx.GetVer(), rctx.GetConfVer(), told), map[string]any{"key": c09K(key)})
+			}
+		}
 		ereq, e := w.cdc.EncodeRequest(req)
 		if e != nil {
 			err = e
@@ -1044,9 +1058,20 @@ func (c *c09Client) SendRequest(ctx context.Context, addr string, req *tikvrpc.R
 				w.r.Count("rpc_not_leader", 1)
 			case regionErr.GetEpochNotMatch() != nil:
 				w.r.Count("rpc_epoch_not_match", 1)
+				told, refuted := "", false
 				for _, m := range regionErr.GetEpochNotMatch().GetCurrentRegions() {
 					ep := m.GetRegionEpoch()
-					delivered = append(delivered, NewRegionVerID(m.Id, ep.GetConfVer(), ep.GetVersion()))
+					v := NewRegionVerID(m.Id, ep.GetConfVer(), ep.GetVersion())
+					delivered = append(delivered, v)
+					told += fmt.Sprintf("r%d@%d.%d ", v.GetID(), v.GetVer(), v.GetConfVer())
+					if m.Id == rctx.GetID() && v != rctx && ep.GetConfVer() >= rctx.GetConfVer() && ep.GetVersion() >= rctx.GetVer() {
+						refuted = true
+					}
+				}
+				if refuted && w.enmJudge.Load() {
+					w.mu.Lock()
+					w.enmSeen[rctx] = told
+					w.mu.Unlock()
 				}
 			case regionErr.GetRegionNotFound() != nil:
 				w.r.Count("rpc_region_not_found", 1)
@@ -1113,6 +1138,13 @@ func (w *c09World) send(key []byte, budgetMs int) c09SendResult {
 	sender := NewRegionRequestSender(w.cache, w.cli, oracle.NoopReadTSValidator{})
 	w.rpcInOp.Store(0)
 	res := c09SendResult{}
+	if budgetMs == c09ConvergeBudgetMs && !w.concurrent.Load() {
+		w.mu.Lock()
+		w.enmSeen = map[RegionVerID]string{}
+		w.mu.Unlock()
+		w.enmJudge.Store(true)
+		defer w.enmJudge.Store(false)
+	}
 	for {
 		res.loops++
 		if res.loops > 400 || w.rpcInOp.Load() > 2000 {
